@@ -723,6 +723,12 @@ def site_case(ctx, impl, drv, spec, rng, quick, kind):
             got = got_sites[s]
             got = [got] if isinstance(got, dict) else got
             if len(got) != len(rows):
+                if entry == "site_id" and not (len(rows) > 1 and len(got) == 1):
+                    # theorem site_id_count: records are lost exactly when two records share a (lower-cased) site code, and
+                    # then one per code comes back; anything else is not the known finding
+                    ctx.violate("site:site_id:lost-record", f"{b.marker} site {s}: {len(rows)} record(s) written with this "
+                                f"site code, {len(got)} returned", case)
+                    break
                 ctx.violate(f"{kind}:{entry}:row-count", f"{b.marker} site {s}: {len(rows)} rows written, {len(got)} returned", case)
                 break
             bad = False
@@ -808,9 +814,23 @@ def tro_case(ctx, impl, drv, spec, rng, quick):
                     ctx.violate("tro:description", f"keyword {texts[0]!r}: {p.data.get(texts[0].strip())!r} vs {texts[1]!r}", case)
                     break
         elif b.marker == "TROP/SOLUTION":
+            # theorem tro_solution: data[station] is the dictionary of the station's last row, without site_name
             names = [f[0] for f in b.fields]
+            si = names.index("site_name")
+            last = {}
             for texts, exps in b.rows:
-                pass  # only the last row per site is kept by design ("data not in use yet"); values via correspondence
+                last[texts[si].strip()] = (texts, exps)
+            for sta, (texts, exps) in last.items():
+                got = p.data.get(sta)
+                if not isinstance(got, dict) or "site_name" in got:
+                    ctx.violate("tro:solution:station", f"station {sta!r}: data[station] is {got!r}", case)
+                    break
+                bad = [n for j, n in enumerate(names) if j != si and not value_matches(exps[j], got.get(n.replace(" ", "_")))]
+                if bad:
+                    ctx.violate("tro:solution:value", f"station {sta!r} field {bad[0]}: last row has "
+                                f"{texts[names.index(bad[0])]!r}, parser returned {got.get(bad[0].replace(' ', '_'))!r}", case)
+                    break
+            ctx.count("tro:solution-stations", len(last))
 
 
 def converter_cases(ctx, impl, drv, rng, n):
